@@ -318,6 +318,8 @@ class SymBlock:
         # aggregation provenance (reductions): None, or dict(src=<array name>, box=((lo, hi) per axis of src), cond=[z3 terms])
         # — the block aggregates exactly the elements of that box of `src`, each once, provided every term of cond holds
         self.agg = None
+        # positional variant: dict(seq=<id of the task's block stream>, lo, hi, cond) — aggregates stream positions lo..hi-1
+        self.aggpos = None
         # memory: a view shares the buffer of its base; anything else is a fresh allocation (reported to the live-memory
         # meter of the path, if one is switched on)
         self.base = view_of.base if view_of is not None else self
@@ -646,6 +648,12 @@ class _NXP:
                         cond.append(z3.And(tz(g1["box"][i][0]) == tz(g2["box"][i][0]), tz(g1["box"][i][1]) == tz(g2["box"][i][1])))
             box = tuple((aggs[0]["box"][i][0], aggs[-1]["box"][i][1]) if i == ax else aggs[0]["box"][i] for i in range(nd))
             out.agg = dict(src=aggs[0]["src"], box=box, cond=cond)
+        pos = [getattr(a, "aggpos", None) for a in arrays]
+        if all(g is not None for g in pos) and len({g["seq"] for g in pos}) == 1:
+            cond = [t for g in pos for t in g["cond"]]
+            for g1, g2 in zip(pos, pos[1:]):
+                cond.append(tz(g1["hi"]) == tz(g2["lo"]))  # the pieces are consecutive runs of the stream
+            out.aggpos = dict(seq=pos[0]["seq"], lo=pos[0]["lo"], hi=pos[-1]["hi"], cond=cond)
         return out
 
     def flip(self, x, axis=None):
